@@ -204,6 +204,10 @@ class Executor(object):
         self.probes = []        # (name, assumptions): must not be refutable (vacuity guard)
         self.heavy_ids = set()  # assumptions (semantic axiom bundles) that frame obligations do not need
         self.heavy2_ids = set() # further bulky requires clauses, dropped only where hints['slice_more'] matches
+        self.noraise_ids = set()    # "the callee did not raise" facts (bulky negated raise conditions); cut lemmas
+                                    # named by hints['slice_noraise'] are proved without them
+        self.schema_ids = set() # second-order schemas among the requires: never given to the solver as they are
+                                # (no usable trigger); only their syntactic instances made by cut lemmas are
 
     def _owner_is(self, fnode, nd):
         # loops of nested function definitions belong to the nested function
@@ -222,6 +226,14 @@ class Executor(object):
                                or ':alloc:' in name or (extra_slice and re.search(extra_slice, name))):
             # assumption slicing (sound: fewer assumptions): pure heap-frame goals do not need the semantics axioms
             pcs = [a for a in path.pc if a.get_id() not in self.heavy_ids]
+        if self.schema_ids:
+            pcs = [a for a in pcs if a.get_id() not in self.schema_ids]
+        nr_ = self.k.hints.get('slice_noraise')
+        if nr_ and self.noraise_ids and re.search(nr_, name):
+            pcs = [a for a in pcs if a.get_id() not in self.noraise_ids]
+        more_ = self.k.hints.get('slice_more_main')
+        if more_ and self.heavy2_ids and re.search(more_, name):
+            pcs = [a for a in pcs if a.get_id() not in self.heavy2_ids]
         assumptions = list(self.axioms) + list(pcs) + list(extra or [])
         # line numbers in names are relative to the function's first line, so that
         # unrelated edits elsewhere in the file do not rename obligations
@@ -239,18 +251,23 @@ class Executor(object):
                     inst = None
                     if isinstance(G, tuple):
                         G, inst = G        # (forall lemma, terms to instantiate it at)
-                    if not any(z3.eq(G, a_) for a_ in assumptions):
+                    if not any(z3.eq(G, a_) for a_ in assumptions) and not (
+                            G.get_id() in self.schema_ids and any(z3.eq(G, a_) for a_ in path.pc)):
                         # (a cut that is literally one of the assumptions needs no proof)
                         cut_assumptions = list(assumptions)
                         if extra_slice and self.heavy_ids and re.search(extra_slice, '%s:cut%d' % (name, i + 1)):
                             cut_assumptions = [a_ for a_ in cut_assumptions if a_.get_id() not in self.heavy_ids]
+                        nr = self.k.hints.get('slice_noraise')
+                        if nr and re.search(nr, '%s:cut%d' % (name, i + 1)):
+                            cut_assumptions = [a_ for a_ in cut_assumptions if a_.get_id() not in self.noraise_ids]
                         more = self.k.hints.get('slice_more')
                         if more and re.search(more, '%s:cut%d' % (name, i + 1)):
                             cut_assumptions = [a_ for a_ in cut_assumptions if a_.get_id() not in self.heavy2_ids]
                         self.obls.append(Obligation('%s:%s:cut%d' % (self.k.qualname, name, i + 1), cut_assumptions, G,
                                                     ('lemma',), self.k.qualname, line))
-                    assumptions = assumptions + [G]
-                    cuts_only.append(G)
+                    if G.get_id() not in self.schema_ids:
+                        assumptions = assumptions + [G]
+                        cuts_only.append(G)
                     if inst is not None:
                         # forall-elimination, done syntactically (sound by construction)
                         gi = z3.substitute_vars(G.body(), *reversed(inst))
@@ -329,6 +346,8 @@ class Executor(object):
             return Coll('H', h.set_of(sv.t), True, src=('sets', sv.t))
         if sv.ty == 'list':
             return Coll('H', h.set_of(sv.t), False, src=('sets', sv.t))
+        if sv.ty == 'dlist':
+            return Coll('H', h.set_of(sv.t), True, src=('sets', sv.t))
         if sv.ty == 'keys':
             return Coll('H', h.ddom(sv.t), True, src=('dd', sv.t))
         if sv.ty == 'dict':
@@ -507,6 +526,8 @@ class Executor(object):
             v = self.ev(x, sub)
             # exceptional outcomes of guarded operands propagate with the guard
             path.exc.extend(sub.exc)
+            for gk, gv in sub.ghosts.items():
+                path.ghosts.setdefault(gk, gv)
             # side conditions learned (~raise) are only valid under the guards
             learned = sub.pc[len(path.pc) + len(guards):]
             for c in learned:
